@@ -11,6 +11,7 @@ import (
 	"fmt"
 	"os"
 	"testing"
+	"time"
 )
 
 // ---------------------------------------------------------------- oracles
@@ -427,20 +428,26 @@ func runFsmCaseFaults2(c *vCtx, idx int64, prop string, oracle fsmOracle, cfg fs
 	if idx%3 == 1 {
 		timeOn = 1 + int(idx/3%3)
 	}
+	// every fifth case with a telemetry frame counter that is not unique per frame
+	counter := 0
+	if idx%5 == 2 {
+		counter = 1 + int(idx/5%3)
+	}
 	c.Case(idx, func() interface{} {
 		r := newFsmRun(cfg)
-		r.timeOnMode = timeOn
+		r.timeOnMode, r.counterMode = timeOn, counter
 		r.preFaultPct = preFaultPct
 		r.writeFaultPct, r.stopFaultPct, r.faultRNG = writeFaultPct, writeFaultPct/2, vNewRNG(uint64(idx), 99)
 		for _, e := range evs {
 			r.step(e)
 		}
 		return map[string]interface{}{"config": cfg.String(), "script": scriptString(evs), "camera_time_on": []string{"strictly increasing", "constant (Boson)", "falls back every 7 frames", "every value twice"}[timeOn],
-			"legend": "f=frame m=frame with motion aimed b=bad frame r=reset q=snapshot query; suffix w=window closed c=disk check refuses x=file creation fails",
-			"trace":  traceString(r.steps, 80)}
+			"camera_frame_counter": []string{"unique", "always 0 (Boson)", "constant 7", "every value three times"}[counter],
+			"legend":               "f=frame m=frame with motion aimed b=bad frame r=reset q=snapshot query; suffix w=window closed c=disk check refuses x=file creation fails",
+			"trace":                traceString(r.steps, 80)}
 	}, func() {
 		r := newFsmRun(cfg)
-		r.timeOnMode = timeOn
+		r.timeOnMode, r.counterMode = timeOn, counter
 		r.preFaultPct = preFaultPct
 		r.writeFaultPct, r.stopFaultPct, r.faultRNG = writeFaultPct, writeFaultPct/2, vNewRNG(uint64(idx), 99)
 		for _, e := range evs {
@@ -480,6 +487,10 @@ func runFsmCaseFaults2(c *vCtx, idx int64, prop string, oracle fsmOracle, cfg fs
 		c.Seen("time_on_modes", fmt.Sprint(timeOn))
 		if timeOn != 0 {
 			c.Count("scripts_with_non_increasing_time_on", 1)
+		}
+		c.Seen("frame_counter_modes", fmt.Sprint(counter))
+		if counter != 0 {
+			c.Count("scripts_with_non_unique_frame_counter", 1)
 		}
 		if len(v.recs) > 0 {
 			c.Nontrivial(vNewHash().Str(cfg.String()).U64(traceHash(r.steps)).Sum())
@@ -521,6 +532,7 @@ func fsmRandomScript(rng *vRNG, cfg fsmConfig, n int, withFaults bool) []fsmEven
 	pBad, pReset := 0, 0
 	pWin, pCheck, pStart := 0, 0, 0
 	pQuery := rng.PickInt(0, 0, 5, 30) // snapshot queries interleaved with the frames
+	pSnap := rng.PickInt(0, 0, 1, 4)   // test-recording requests interleaved with the frames
 	if withFaults {
 		pBad = rng.PickInt(0, 0, 1, 3)
 		pReset = rng.PickInt(0, 0, 1, 2)
@@ -551,6 +563,8 @@ func fsmRandomScript(rng *vRNG, cfg fsmConfig, n int, withFaults bool) []fsmEven
 			e.Kind = evReset
 		} else if rng.Intn(100) < pQuery {
 			evs = append(evs, fsmEvent{Kind: evQuery})
+		} else if rng.Intn(100) < pSnap {
+			evs = append(evs, fsmEvent{Kind: evSnap})
 		}
 		e.WinClosed = winClosed || rng.Intn(100) < pWin/4
 		e.CheckFail = rng.Intn(100) < pCheck
@@ -702,6 +716,35 @@ func TestVerif_FSM(t *testing.T) {
 					}
 				}
 			}
+		}
+	}
+
+	// Part 6 (C03 only): the stream stalls in real time in the middle of a recording (longer
+	// than max-secs of wall time): limits are counted in frames, the recording still gets its
+	// min-secs / max-secs worth of frames.
+	if prop == "C03" {
+		for k := 0; k < 6; k++ {
+			myIdx := idx
+			idx++
+			if !c.Mine(myIdx) {
+				continue
+			}
+			cfg := fsmConfig{FPS: 3, Preview: 1, Trigger: 1, Min: 1, Max: 1 + k%2}
+			evs := []fsmEvent{{Kind: evFrame}, {Kind: evFrame}, {Kind: evFrame}}
+			nm := 10
+			if k >= 4 {
+				nm = 1 // a blip: the min-secs tail is what stalls
+			}
+			for i := 0; i < nm; i++ {
+				evs = append(evs, fsmEvent{Kind: evMotion})
+			}
+			for i := 0; i < 12; i++ {
+				evs = append(evs, fsmEvent{Kind: evFrame})
+			}
+			// stall after the trigger frame plus one
+			evs[5].Stall = time.Duration(cfg.Max)*time.Second + 150*time.Millisecond
+			c.Count("stalled_streams", 1)
+			runFsmCase(c, myIdx, prop, oracle, cfg, evs, "stream-stalls-in-mid-recording")
 		}
 	}
 
